@@ -144,9 +144,16 @@ def line_identity_violations(before, after, before_tree):
         if tag == "equal":
             continue
         if tag in ("replace", "delete"):
-            bad = [ln for ln in range(i1 + 1, i2 + 1) if ln not in mut]
-            # a whitespace-only line next to a rewritten docstring/header is part of that span's layout
-            bad = [ln for ln in bad if bl[ln - 1].strip()]
+            # difflib's alignment inside a rewritten region is heuristic: the immutable, non-blank lines of
+            # the region must occur, in order and byte-identical, in the region that replaced it
+            keep = [ln for ln in range(i1 + 1, i2 + 1) if ln not in mut and bl[ln - 1].strip()]
+            region = al[j1:j2] if tag == "replace" else []
+            pos, bad = 0, []
+            for ln in keep:
+                try:
+                    pos = region.index(bl[ln - 1], pos) + 1
+                except ValueError:
+                    bad.append(ln)
             if bad:
                 out.append({"kind": tag, "before_lines": bad[:5], "text": [bl[ln - 1] for ln in bad[:3]],
                             "after_text": al[j1:j2][:3]})
